@@ -54,6 +54,11 @@ def m_emit(interp, self, outputs, callee, inputs, attrs=None):
     for i, o in enumerate(outs):
         v = SObj(Value, "val")
         v.fields.update(name=o, ghost_node=entry, ghost_index=i, type=None, shape=None, dtype=None)
+
+        def producer():
+            raise AssertionError
+        interp.models[producer] = lambda i2, entry=entry: entry
+        v.fields["producer"] = producer
         vals.append(v)
     entry["out_values"] = vals
     log.nodes.append(entry)
